@@ -17,11 +17,11 @@ A(x) == x   \* readability
 STARTS == << <<97>>,                                                          \* a
              <<112,58,97>>,                                                   \* p:a
              <<97,32,120,109,108,110,115,61,34,117,34>>,                      \* a xmlns="u"
-             <<97,32,120,109,108,110,115,61,34,34>>,                          \* a xmlns=""
-             <<97,32,120,109,108,110,115,58,112,61,34,117,34>>,               \* a xmlns:p="u"
+             <<97,9,120,109,108,110,115,61,34,34>>,                           \* a TAB xmlns=""        (every kind of white space before a declaration)
+             <<97,10,120,109,108,110,115,58,112,61,34,117,34>>,               \* a LF xmlns:p="u"
              <<97,32,120,109,108,110,115,58,112,61,39,118,39>>,               \* a xmlns:p='v'
              <<97,32,120,109,108,110,115,58,112,61,34,34>>,                   \* a xmlns:p=""
-             <<112,58,97,32,120,109,108,110,115,58,112,61,34,117,34,32,120,109,108,110,115,61,34,118,34>>,  \* p:a xmlns:p="u" xmlns="v"
+             <<112,58,97,13,10,120,109,108,110,115,58,112,61,34,117,34,10,9,120,109,108,110,115,61,34,118,34>>,  \* p:a CR LF xmlns:p="u" LF TAB xmlns="v"
              <<97,32,120,109,108,110,115,58,112,61,34,117,34,32,120,109,108,110,115,58,112,61,34,118,34>>,  \* a xmlns:p="u" xmlns:p="v"
              <<97,32,120,109,108,110,115,58,113,61,34,117,34,32,112,58,107,61,34,49,34>> >>                 \* a xmlns:q="u" p:k="1"
 NameOfStart(i) == IF i \in {2, 8} THEN <<112,58,97>> ELSE <<97>>
